@@ -1,5 +1,358 @@
 import FcpptModel.Prelude.Proto
-/-! Driver for C04 — placeholder until the property's model is built. -/
+import FcpptModel.Model.C04
+/-!
+Driver for C04.  One call of one combinator per line; the result line is
+
+    <result> | <call log>
+
+`<call log>` lists every continuation call in order as `site(arg,…)` separated by `;` (`-` if no call).
+A fault prints its kind (`empty-deref`, `exc:E2`, …) in place of the result.
+
+Value syntax (prefix-free, no blanks): `0 1 2` element of D; `N` / `J<v>` optional; `F<v>` / `S<v>` either;
+`A<d> B<d> C<d>` variant<A,B,C>; `[<v>…]` container; `t f` bool; `u` void; `R<d>` returns, `X<d>` throws the caught
+exception type with payload d, `Y` throws another type.  A function D^k → T is its table: the 3^k values in
+row-major order, concatenated.  `L` / `C` / `R` in front of the arguments is the value category used on the C++ side
+(lvalue / const lvalue / rvalue); the model's answer does not depend on it.
+
+`all9 <op> … * …` prints the digest of the result lines of `<op>` with `*` replaced by each of the 3^9 tables D×D → D.
+
+The operations are listed in `handle1`.
+-/
 namespace Fcppt.C04.Drv
-def main : IO Unit := Fcppt.Proto.run (fun _ => "not-built")
+open Fcppt.Proto Fcppt.C04
+
+/-! ### state of the continuations -/
+structure DS where
+  log : Array String := #[]
+  queue : List (Either Nat Nat) := []
+  calls : Nat := 0
+
+abbrev KD := K DS
+
+def lg (site : String) (args : List Nat) : KD Unit := fun s =>
+  (.ok (), { s with log := s.log.push (site ++ "(" ++ ",".intercalate (args.map toString) ++ ")") })
+
+def look {β : Type} (tbl : Array β) (i : Nat) : KD β :=
+  match tbl[i]? with
+  | some v => pure v
+  | none => K.fault .oob
+
+def fn1 {β : Type} (site : String) (tbl : Array β) : Nat → KD β := fun x => do
+  lg site [x]
+  look tbl x
+def fn2 {β : Type} (site : String) (tbl : Array β) : Nat → Nat → KD β := fun x y => do
+  lg site [x, y]
+  look tbl (x * 3 + y)
+def fn3 {β : Type} (site : String) (tbl : Array β) : Nat → Nat → Nat → KD β := fun x y z => do
+  lg site [x, y, z]
+  look tbl ((x * 3 + y) * 3 + z)
+def thunk {β : Type} (site : String) (v : β) : Unit → KD β := fun _ => do
+  lg site []
+  pure v
+
+/-! ### reading and printing values -/
+abbrev P (α : Type) := List Char → Option (α × List Char)
+class Rd (α : Type) where rd : P α
+class Sh (α : Type) where sh : α → String
+open Rd Sh
+
+abbrev V3 := Var 3 (fun _ => Nat)
+
+inductive Outcome where
+  | ret (d : Nat) | throwCaught (d : Nat) | throwOther
+
+instance : Rd Nat := ⟨fun
+  | c :: r => if c = '0' ∨ c = '1' ∨ c = '2' then some (c.toNat - 48, r) else none
+  | [] => none⟩
+instance {α : Type} [Rd α] : Rd (Option α) := ⟨fun
+  | 'N' :: r => some (none, r)
+  | 'J' :: r => (rd r).map fun (x, r') => (some x, r')
+  | _ => none⟩
+instance {φ α : Type} [Rd φ] [Rd α] : Rd (Either φ α) := ⟨fun
+  | 'F' :: r => (rd r).map fun (x, r') => (.failure x, r')
+  | 'S' :: r => (rd r).map fun (x, r') => (.success x, r')
+  | _ => none⟩
+instance : Rd V3 := ⟨fun
+  | 'A' :: r => (rd (α := Nat) r).map fun (x, r') => (⟨0, x⟩, r')
+  | 'B' :: r => (rd (α := Nat) r).map fun (x, r') => (⟨1, x⟩, r')
+  | 'C' :: r => (rd (α := Nat) r).map fun (x, r') => (⟨2, x⟩, r')
+  | _ => none⟩
+instance : Rd Bool := ⟨fun
+  | 't' :: r => some (true, r)
+  | 'f' :: r => some (false, r)
+  | _ => none⟩
+instance : Rd Outcome := ⟨fun
+  | 'R' :: r => (rd (α := Nat) r).map fun (x, r') => (.ret x, r')
+  | 'X' :: r => (rd (α := Nat) r).map fun (x, r') => (.throwCaught x, r')
+  | 'Y' :: r => some (.throwOther, r)
+  | _ => none⟩
+
+def rdListGo {α : Type} [Rd α] : Nat → List Char → List α → Option (List α × List Char)
+  | 0, _, _ => none
+  | _ + 1, ']' :: r, acc => some (acc.reverse, r)
+  | n + 1, cs, acc =>
+    match rd cs with
+    | some (x, r) => rdListGo n r (x :: acc)
+    | none => none
+instance {α : Type} [Rd α] : Rd (List α) := ⟨fun
+  | '[' :: r => rdListGo (r.length + 1) r []
+  | _ => none⟩
+
+def rdN {α : Type} [Rd α] : Nat → List Char → List α → Option (List α × List Char)
+  | 0, cs, acc => some (acc.reverse, cs)
+  | n + 1, cs, acc =>
+    match rd cs with
+    | some (x, r) => rdN n r (x :: acc)
+    | none => none
+
+/-- a whole token as one value -/
+def tok (α : Type) [Rd α] (s : String) : Option α :=
+  match rd s.toList with
+  | some (x, []) => some x
+  | _ => none
+
+/-- a whole token as a table of `n` values -/
+def tbl (α : Type) [Rd α] (n : Nat) (s : String) : Option (Array α) :=
+  match rdN n s.toList [] with
+  | some (l, []) => some l.toArray
+  | _ => none
+
+def cat? (s : String) : Option Unit := if s = "L" ∨ s = "C" ∨ s = "R" then some () else none
+
+instance : Sh Nat := ⟨toString⟩
+instance {α : Type} [Sh α] : Sh (Option α) := ⟨fun | none => "N" | some x => "J" ++ sh x⟩
+instance {φ α : Type} [Sh φ] [Sh α] : Sh (Either φ α) := ⟨fun | .failure x => "F" ++ sh x | .success x => "S" ++ sh x⟩
+instance : Sh V3 := ⟨fun v => (if v.idx.val = 0 then "A" else if v.idx.val = 1 then "B" else "C") ++ toString (show Nat from v.val)⟩
+instance : Sh Bool := ⟨fun b => if b then "t" else "f"⟩
+instance : Sh Unit := ⟨fun _ => "u"⟩
+instance {α : Type} [Sh α] : Sh (List α) := ⟨fun l => "[" ++ String.join (l.map sh) ++ "]"⟩
+
+def showLog (l : Array String) : String := if l.isEmpty then "-" else ";".intercalate l.toList
+
+def runWith {ρ : Type} [Sh ρ] (s0 : DS) (m : KD ρ) : String :=
+  let (r, s) := m s0
+  (match r with
+   | .ok v => sh v
+   | .error e => e.name) ++ " | " ++ showLog s.log
+
+def run1 {ρ : Type} [Sh ρ] (m : KD ρ) : String := runWith {} m
+
+def run2 {ρ : Type} [Sh ρ] (m₁ m₂ : KD ρ) : String := run1 m₁ ++ " || " ++ run1 m₂
+
+/-! ### continuations that need more than a table -/
+
+/-- the `k`-th thunk of `first_success` -/
+def nthThunk (i : Nat) (e : Either Nat Nat) : Unit → KD (Either Nat Nat) := fun _ => do
+  lg "n" [i]
+  pure e
+
+/-- `next` of `loop`: pops the queue; throws the uncaught exception type when it is empty -/
+def popNext : Unit → KD (Either Nat Nat) := fun _ s =>
+  let s1 := { s with log := s.log.push ("n(" ++ toString s.calls ++ ")"), calls := s.calls + 1 }
+  match s1.queue with
+  | e :: r => (.ok e, { s1 with queue := r })
+  | [] => (.error (.exception (.other "E2")), s1)
+
+def outcomeThunk (o : Outcome) : Unit → KD Nat := fun _ => do
+  lg "f" []
+  match o with
+  | .ret d => pure d
+  | .throwCaught d => K.fault (.exception (.other ("E1:" ++ toString d)))
+  | .throwOther => K.fault (.exception (.other "E2"))
+
+/-- which exception kinds `try_call<E1>` catches -/
+def catchesE1 : ExcKind → Option Nat
+  | .other s => if s.startsWith "E1:" then (s.drop 3).toString.toNat? else none
+  | _ => none
+
+def natEq (a b : Nat) : Bool := a == b
+def natLt (a b : Nat) : Bool := decide (a < b)
+
+def fin3 (s : String) : Option (Fin 3) :=
+  match s with
+  | "0" => some 0
+  | "1" => some 1
+  | "2" => some 2
+  | _ => none
+
+/-! ### operations -/
+def handle1 (toks : List String) : Option String :=
+  match toks with
+  -- optional -------------------------------------------------------------------------------
+  | ["o.map", c, o, f] => do
+    cat? c; let o ← tok (Option Nat) o; let f ← tbl Nat 3 f
+    pure (run1 (Opt.map o (fn1 "f" f)))
+  | ["o.bind", c, o, f] => do
+    cat? c; let o ← tok (Option Nat) o; let f ← tbl (Option Nat) 3 f
+    pure (run1 (Opt.bind o (fn1 "f" f)))
+  | ["o.mbind", c, o, f] => do
+    cat? c; let o ← tok (Option Nat) o; let f ← tbl (Option Nat) 3 f
+    pure (run1 (monadBindOpt o (fn1 "f" f)))
+  | ["o.join", c, oo] => do
+    cat? c; let oo ← tok (Option (Option Nat)) oo
+    pure (run1 (Opt.join (σ := DS) oo))
+  | ["o.apply1", c, o1, f] => do
+    cat? c; let o1 ← tok (Option Nat) o1; let f ← tbl Nat 3 f
+    pure (run1 (Opt.apply1 (fn1 "f" f) o1))
+  | ["o.apply2", c, o1, o2, f] => do
+    cat? c; let o1 ← tok (Option Nat) o1; let o2 ← tok (Option Nat) o2; let f ← tbl Nat 9 f
+    pure (run1 (Opt.apply2 (fn2 "f" f) o1 o2))
+  | ["o.apply3", c, o1, o2, o3, f] => do
+    cat? c; let o1 ← tok (Option Nat) o1; let o2 ← tok (Option Nat) o2; let o3 ← tok (Option Nat) o3
+    let f ← tbl Nat 27 f
+    pure (run1 (Opt.apply3 (fn3 "f" f) o1 o2 o3))
+  | ["o.filter", c, o, p] => do
+    cat? c; let o ← tok (Option Nat) o; let p ← tbl Bool 3 p
+    pure (run1 (Opt.filter o (fn1 "p" p)))
+  | ["o.alt", c, o, a] => do
+    cat? c; let o ← tok (Option Nat) o; let a ← tok (Option Nat) a
+    pure (run1 (Opt.alternative o (thunk "a" a)))
+  | ["o.combine", c, o1, o2, f] => do
+    cat? c; let o1 ← tok (Option Nat) o1; let o2 ← tok (Option Nat) o2; let f ← tbl Nat 9 f
+    pure (run1 (Opt.combine o1 o2 (fn2 "f" f)))
+  | ["o.cat", c, l] => do
+    cat? c; let l ← tok (List (Option Nat)) l
+    pure (run1 (Opt.cat (σ := DS) l))
+  | ["o.seq", c, l] => do
+    cat? c; let l ← tok (List (Option Nat)) l
+    pure (run1 (Opt.sequence (σ := DS) l))
+  | ["o.from", c, o, d] => do
+    cat? c; let o ← tok (Option Nat) o; let d ← tok Nat d
+    pure (run1 (Opt.from o (thunk "d" d)))
+  | ["o.maybe", c, o, d, t] => do
+    cat? c; let o ← tok (Option Nat) o; let d ← tok Nat d; let t ← tbl Nat 3 t
+    pure (run1 (Opt.maybe o (thunk "d" d) (fn1 "t" t)))
+  | ["o.maybe_void", c, o] => do
+    cat? c; let o ← tok (Option Nat) o
+    pure (run1 (Opt.maybeVoid o (fun x => lg "t" [x])))
+  | ["o.mm1", c, o1, d, t] => do
+    cat? c; let o1 ← tok (Option Nat) o1; let d ← tok Nat d; let t ← tbl Nat 3 t
+    pure (run1 (Opt.maybeMulti1 (thunk "d" d) (fn1 "t" t) o1))
+  | ["o.mm2", c, o1, o2, d, t] => do
+    cat? c; let o1 ← tok (Option Nat) o1; let o2 ← tok (Option Nat) o2; let d ← tok Nat d; let t ← tbl Nat 9 t
+    pure (run1 (Opt.maybeMulti2 (thunk "d" d) (fn2 "t" t) o1 o2))
+  | ["o.mm3", c, o1, o2, o3, d, t] => do
+    cat? c; let o1 ← tok (Option Nat) o1; let o2 ← tok (Option Nat) o2; let o3 ← tok (Option Nat) o3
+    let d ← tok Nat d; let t ← tbl Nat 27 t
+    pure (run1 (Opt.maybeMulti3 (thunk "d" d) (fn3 "t" t) o1 o2 o3))
+  | ["o.make_if", b, v] => do
+    let b ← tok Bool b; let v ← tok Nat v
+    pure (run1 (Opt.makeIf b (thunk "f" v)))
+  | ["o.cmp", a, b] => do
+    let a ← tok (Option Nat) a; let b ← tok (Option Nat) b
+    pure (run1 do
+      let e ← Opt.eq natEq a b; let n ← Opt.ne natEq a b; let l ← Opt.lt natLt a b
+      pure [e, n, l])
+  | ["o.assoc", c, o, f, g] => do
+    cat? c; let o ← tok (Option Nat) o; let f ← tbl (Option Nat) 3 f; let g ← tbl (Option Nat) 3 g
+    pure (run2
+      (do let r ← Opt.bind o (fn1 "f" f); Opt.bind r (fn1 "g" g))
+      (Opt.bind o fun x => do let r ← fn1 "f" f x; Opt.bind r (fn1 "g" g)))
+  | ["o.mapcomp", c, o, f, g] => do
+    cat? c; let o ← tok (Option Nat) o; let f ← tbl Nat 3 f; let g ← tbl Nat 3 g
+    pure (run2
+      (do let r ← Opt.map o (fn1 "f" f); Opt.map r (fn1 "g" g))
+      (Opt.map o fun x => do let r ← fn1 "f" f x; fn1 "g" g r))
+  -- either ---------------------------------------------------------------------------------
+  | ["e.match", c, e, ff, fs] => do
+    cat? c; let e ← tok (Either Nat Nat) e; let ff ← tbl Nat 3 ff; let fs ← tbl Nat 3 fs
+    pure (run1 (Either.match_ e (fn1 "ff" ff) (fn1 "fs" fs)))
+  | ["e.map", c, e, f] => do
+    cat? c; let e ← tok (Either Nat Nat) e; let f ← tbl Nat 3 f
+    pure (run1 (Either.map e (fn1 "f" f)))
+  | ["e.bind", c, e, f] => do
+    cat? c; let e ← tok (Either Nat Nat) e; let f ← tbl (Either Nat Nat) 3 f
+    pure (run1 (Either.bind e (fn1 "f" f)))
+  | ["e.mbind", c, e, f] => do
+    cat? c; let e ← tok (Either Nat Nat) e; let f ← tbl (Either Nat Nat) 3 f
+    pure (run1 (monadBindEither e (fn1 "f" f)))
+  | ["e.join", c, ee] => do
+    cat? c; let ee ← tok (Either Nat (Either Nat Nat)) ee
+    pure (run1 (Either.join (σ := DS) ee))
+  | ["e.apply1", c, e1, f] => do
+    cat? c; let e1 ← tok (Either Nat Nat) e1; let f ← tbl Nat 3 f
+    pure (run1 (Either.apply1 (fn1 "f" f) e1))
+  | ["e.apply2", c, e1, e2, f] => do
+    cat? c; let e1 ← tok (Either Nat Nat) e1; let e2 ← tok (Either Nat Nat) e2; let f ← tbl Nat 9 f
+    pure (run1 (Either.apply2 (fn2 "f" f) e1 e2))
+  | ["e.apply3", c, e1, e2, e3, f] => do
+    cat? c; let e1 ← tok (Either Nat Nat) e1; let e2 ← tok (Either Nat Nat) e2; let e3 ← tok (Either Nat Nat) e3
+    let f ← tbl Nat 27 f
+    pure (run1 (Either.apply3 (fn3 "f" f) e1 e2 e3))
+  | ["e.mapf", c, e, f] => do
+    cat? c; let e ← tok (Either Nat Nat) e; let f ← tbl Nat 3 f
+    pure (run1 (Either.mapFailure e (fn1 "f" f)))
+  | ["e.seq", "R", l] => do   -- either::sequence accepts rvalue sources only
+    let l ← tok (List (Either Nat Nat)) l
+    pure (run1 (Either.sequence (σ := DS) l))
+  | ["e.first", l] => do
+    let l ← tok (List (Either Nat Nat)) l
+    pure (run1 (Either.firstSuccess ((List.range l.length).zipWith nthThunk l)))
+  | ["e.loop", l] => do
+    let l ← tok (List (Either Nat Nat)) l
+    pure (runWith { queue := l } (Either.loop (l.length + 2) popNext (fun x => lg "b" [x])))
+  | ["e.from_opt", c, o, f] => do
+    cat? c; let o ← tok (Option Nat) o; let f ← tok Nat f
+    pure (run1 (Either.fromOptional o (thunk "f" f)))
+  | ["e.try", r, t] => do
+    let r ← tok Outcome r; let t ← tbl Nat 3 t
+    pure (run1 (Either.tryCall catchesE1 (outcomeThunk r) (fn1 "t" t)))
+  | ["e.sopt", c, e] => do
+    cat? c; let e ← tok (Either Nat Nat) e
+    pure (run1 (Either.successOpt (σ := DS) e))
+  | ["e.fopt", c, e] => do
+    cat? c; let e ← tok (Either Nat Nat) e
+    pure (run1 (Either.failureOpt (σ := DS) e))
+  | ["e.assoc", c, e, f, g] => do
+    cat? c; let e ← tok (Either Nat Nat) e; let f ← tbl (Either Nat Nat) 3 f; let g ← tbl (Either Nat Nat) 3 g
+    pure (run2
+      (do let r ← Either.bind e (fn1 "f" f); Either.bind r (fn1 "g" g))
+      (Either.bind e fun x => do let r ← fn1 "f" f x; Either.bind r (fn1 "g" g)))
+  -- variant --------------------------------------------------------------------------------
+  | ["v.match", c, v, fa, fb, fc] => do
+    cat? c; let v ← tok V3 v; let fa ← tbl Nat 3 fa; let fb ← tbl Nat 3 fb; let fc ← tbl Nat 3 fc
+    pure (run1 (Var.match_ v (fun i (x : Nat) =>
+      if i.val = 0 then fn1 "a" fa x else if i.val = 1 then fn1 "b" fb x else fn1 "c" fc x)))
+  | ["v.apply1", c, v, f] => do
+    cat? c; let v ← tok V3 v; let f ← tbl Nat 9 f
+    pure (run1 (Var.apply (fun i (x : Nat) => fn2 "f" f i.val x) v))
+  | ["v.apply2", c, v1, v2, f] => do
+    cat? c; let v1 ← tok V3 v1; let v2 ← tok V3 v2; let f ← tbl Nat 81 f
+    pure (run1 (Var.apply2 (fun i (x : Nat) j (y : Nat) => do
+      lg "f" [i.val, x, j.val, y]
+      look f (((i.val * 3 + x) * 3 + j.val) * 3 + y)) v1 v2))
+  | ["v.to_opt", c, j, v] => do
+    cat? c; let j ← fin3 j; let v ← tok V3 v
+    pure (run1 (ρ := Option Nat) (Var.toOptional j v))
+  | ["v.compare", l, r, cmp] => do
+    let l ← tok V3 l; let r ← tok V3 r; let cmp ← tbl Bool 27 cmp
+    pure (run1 (Var.compare l r (fun i (x y : Nat) => fn3 "c" cmp i.val x y)))
+  | ["v.cmp", l, r] => do
+    let l ← tok V3 l; let r ← tok V3 r
+    pure (run1 (pure [Var.eq (fun _ => natEq) l r, Var.ne (fun _ => natEq) l r, Var.lt (fun _ => natLt) l r]))
+  | ["v.holds", j, v] => do
+    let j ← fin3 j; let v ← tok V3 v
+    pure (run1 (pure (Var.holdsType j v)))
+  | ["v.index", v] => do
+    let v ← tok V3 v
+    pure (run1 (pure (Var.typeIndex v)))
+  | _ => none
+
+/-- the `i`-th table D×D → D in counting order (most significant digit first) -/
+def table9 (i : Nat) : String :=
+  String.ofList ((List.range 9).reverse.map fun k => Char.ofNat (48 + (i / 3 ^ k) % 3))
+
+def handle (toks : List String) : String :=
+  match toks with
+  | "all9" :: rest =>
+    if rest.count "*" ≠ 1 then "bad-op"
+    else
+      let h := (List.range (3 ^ 9)).foldl (fun h i =>
+        let t := table9 i
+        fnv h ((handle1 (rest.map fun x => if x = "*" then t else x)).getD "bad-op")) fnvInit
+      "D " ++ hex64 h
+  | _ => (handle1 toks).getD "bad-op"
+
+def main : IO Unit := Proto.run handle
+
 end Fcppt.C04.Drv
